@@ -73,32 +73,39 @@ def jsonOrEmpty (r : Req) : Bool :=
 /-- "State-changing" declared methods. -/
 def stateChanging (m : Bytes) : Bool := m == sPOST || m == sPUT || m == sDELETE
 
+/-- The answers the property allows for a request without valid credentials
+to a protected path: 403, a redirect to the login page, or an answer of the
+mux itself (no registered handler called). -/
+def allowedDenial : Obs → Bool
+  | .mux _ => true
+  | .resp .forbiddenAuth => true
+  | .resp .forbiddenPre => true
+  | .resp (.redirect .login) => true
+  | _ => false
+
+/-- The request is one the property protects: an administrator account exists,
+the path is not one of the public families, no valid credentials. -/
+def protectedReq (req : Req) : Bool :=
+  req.usersExist && !req.firstRun && !specPublicPath req.path && !specAuthenticated req
+
+/-- The handler of a state-changing route ran although the method is not the
+declared one or the content type is not JSON. -/
+def badStateChange (req : Req) (declared : Option Bytes) : Bool :=
+  match declared with
+  | some m => stateChanging m && !(req.method == m && jsonOrEmpty req)
+  | none => false
+
 /-- The spec monitor: `none` = the outcome is allowed; `some why` = the
 property fails on this request, `why` a short stable reason class.
 `declared` is the method declared for the route that served the request
 (`none` when the mux answered itself or the route is unknown). -/
 def specCheck (req : Req) (declared : Option Bytes) (o : Obs) : Option String :=
-  let protectedReq := req.usersExist && !req.firstRun && !specPublicPath req.path &&
-    !specAuthenticated req
-  let authClause : Option String :=
-    if protectedReq then
-      match o with
-      | .mux _ => none
-      | .resp .forbiddenAuth => none
-      | .resp .forbiddenPre => none
-      | .resp (.redirect .login) => none
-      | .resp .ran => some "C11.unauthenticated-handler-ran"
-      | .resp _ => some "C11.unauthenticated-not-403-or-login"
-    else none
-  let methodClause : Option String :=
-    match declared, o with
-    | some m, .resp .ran =>
-      if stateChanging m && !(req.method == m && jsonOrEmpty req)
-      then some "C11.state-change-wrong-method-or-ctype" else none
-    | _, _ => none
-  match authClause with
-  | some why => some why
-  | none => methodClause
+  if protectedReq req && !allowedDenial o then
+    some (if o == .resp .ran then "C11.unauthenticated-handler-ran"
+          else "C11.unauthenticated-not-403-or-login")
+  else if o == .resp .ran && badStateChange req declared then
+    some "C11.state-change-wrong-method-or-ctype"
+  else none
 
 def specOK (req : Req) (declared : Option Bytes) (o : Obs) : Bool :=
   (specCheck req declared o).isNone
@@ -142,5 +149,10 @@ def routeOK (r : Route) : Bool :=
   (!stateChanging r.declared || hasEnsure r.declared r.chain)
 
 def flowOK (f : Flow) : Bool := f.src != .other
+
+/-- The declared method of whatever served the request. -/
+def Served.declared : Served → Option Bytes
+  | .route r => some r.declared
+  | _ => none
 
 end AGH.C11
